@@ -90,6 +90,13 @@ impl<T, E> UnwrapOrAbort<T> for Result<T, E> {
 pub struct OverflowError { pub _e: Ghost<int> }
 pub struct DivideByZeroError { pub _e: Ghost<int> }
 pub struct StdError { pub _e: Ghost<int> }
+// Result::unwrap wants E: Debug (only used to print the panic message; ignored by the verifier)
+#[verifier::external]
+impl core::fmt::Debug for StdError { fn fmt(&self, f: &mut core::fmt::Formatter<'_>) -> core::fmt::Result { Ok(()) } }
+#[verifier::external]
+impl core::fmt::Debug for OverflowError { fn fmt(&self, f: &mut core::fmt::Formatter<'_>) -> core::fmt::Result { Ok(()) } }
+#[verifier::external]
+impl core::fmt::Debug for DivideByZeroError { fn fmt(&self, f: &mut core::fmt::Formatter<'_>) -> core::fmt::Result { Ok(()) } }
 pub type StdResult<T> = Result<T, StdError>;
 
 impl OverflowError {
